@@ -50,6 +50,7 @@ void vrt_reset_marker(void);           /* append {"e":"Reset"} and forget ids */
 void vrt_dump(void);                   /* write trace to opts.out (append mode after the first dump) */
 void vrt_user(const char *name, int n, ...);
 long vrt_nevents(void);
+int  vrt_peek(int back, const char **name, long *lastarg);
 int  vrt_all_others_idle(void);
 void vrt_install_crash_handlers(void);
 /* verdict: 0 ok, 3 DEADLOCK, 4 CRASH, 5 HANG (process exits with this code after dumping) */
